@@ -61,6 +61,8 @@ Special ==
       Cmd(HeadA, <<L(FALSE, Z(MX + 1) \o CmdLike, <<>>)>>),
       Cmd(HeadA, <<L(FALSE, AnnLine \o Z(MX), <<>>)>>),
       Cmd(HeadA, <<L(FALSE, Z(MX + 1), TailY), L(FALSE, QR, <<>>)>>),
+      Cmd(HeadA, <<L(FALSE, Z(MX + 1), TailY), LAb(5)>>),          \* refused; its text ends in a synchronising announcement
+      Cmd(HeadA, <<L(FALSE, Z(MX \div 2), <<>>), L(FALSE, Z(MX \div 2), TailY), LAb(2)>>),
       Cmd(HeadA \o Z(MX), <<>>),
       Cmd(<<97, 32>> \o Z(MX - 2), <<>>),
       Cmd(<<97, 32>> \o Z(MX - 1), <<>>),
@@ -83,13 +85,15 @@ CoreSmall ==
       Cmd(HeadA, <<L(FALSE, Z(MX - 4), TailY)>>),
       Cmd(HeadA, <<L(TRUE, Z(FitK(0)), <<>>)>>),
       Cmd(HeadA, <<L(TRUE, BraceEnd, <<>>)>>),
-      Cmd(HeadA, <<L(FALSE, BracePlusEnd, <<>>)>>) }
+      Cmd(HeadA, <<L(FALSE, BracePlusEnd, <<>>)>>),
+      Cmd(HeadA, <<L(FALSE, Z(MX + 1), TailY), LAb(5)>>) }
 CoreBig == CoreSmall \cup
     { Cmd(HeadA, <<L(TRUE, QR, TailY), LAb(MX + 1)>>),
       Cmd(HeadA, <<L(FALSE, Z(MX + 1) \o CmdLike, <<>>)>>),
       Cmd(HeadA, <<L(FALSE, AnnLine \o Z(MX), <<>>)>>),
       Cmd(HeadA, <<L(TRUE, <<120, 13>>, <<>>), L(FALSE, AnnLike, TailY)>>),
       Cmd(HeadA, <<L(FALSE, Z(MX + 1), TailY), L(FALSE, QR, <<>>)>>),
+      Cmd(HeadA, <<L(FALSE, Z(MX + 1), TailY), LAb(5)>>),
       Cmd(<<97, 32>> \o Z(MX - 2), <<>>) }
 Core == IF Big THEN CoreBig ELSE CoreSmall
 
@@ -103,7 +107,7 @@ InDomain(c) ==
     THEN MsgSize(c) > MX => \A j \in 1..Len(c.lits) : ~c.lits[j].sync
     ELSE LET j == SetMin(over) IN
          IF c.lits[j].sync THEN c.lits[j].ab /\ j = Len(c.lits)
-         ELSE \A i \in (j + 1)..Len(c.lits) : ~c.lits[i].sync
+         ELSE \A i \in (j + 1)..Len(c.lits) : ~c.lits[i].sync \/ (c.lits[i].ab /\ i = Len(c.lits))
 Dom(S) == {c \in S : InDomain(c)}
 
 ImapItems ==
